@@ -13,6 +13,13 @@
     behind it (Lemmas/ParserSafe `LexJ`): on a stream that ends with its only EOF / Error item
     the parser never continues after consuming that item, so apart from textOrTag's
     look-ahead it never reads the closed channel, and no token it holds is the zero item.
+  * `lex_error_at_construct_start` — a lexical error about a construct that is never closed
+    (`errorfAt`) is positioned where that construct BEGINS, not at the end of the input where
+    the lexer noticed: an unclosed tag or {literal} at the `{` of the tag (`l.tagStart`;
+    position 0 for `parse.Expr`, whose input has no delimiter), an unterminated string at its
+    opening quote, a block comment at its `/*`, a soydoc comment at its `/**` — the bytes of
+    the input at the reported position are those delimiters.  (The model keeps the class of
+    the error in the Error item's value; op `lex` compares it with the real message.)
   * `err_pos_in_input` — every error `err pos` has `pos ≤ |input|`: every token of the
     lexer — Error items of `errorf` and `errorfAt` included — is positioned inside the input
     (`lex_items`).  Hence the slices `l.input[:pos]` of `lineNumber` / `columnNumber` are in
@@ -82,7 +89,80 @@ theorem err_in_this_file (pf : Bytes → Option UInt64) (input : Bytes) (e : FEr
 theorem soyFile_err_in_this_file (input : Bytes) (e : FErr) (h : soyFile input = .error e) :
     ∃ pos, e = .err pos ∧ pos ≤ input.length := err_in_this_file parseFloat64 input e h
 
+/-! ### lexical errors: the start of the unclosed construct -/
+
+theorem byteAt_some {l : List UInt8} {i : Nat} {v : UInt8} (hv : v ≠ 0) (h : Lex.byteAt l.toArray i = v.toNat) :
+    l[i]? = some v := by
+  unfold Lex.byteAt at h
+  have h' : l.toArray.getD i 0 = v := UInt8.toNat_inj.mp h
+  simp only [Array.getD_eq_getD_getElem?, List.getElem?_toArray] at h'
+  cases hx : l[i]? with
+  | none => rw [hx] at h'; simp at h'; exact absurd h'.symm hv
+  | some x => rw [hx] at h'; simpa using h'
+
+/-- The Error item that ends a token stream, when it complains about an unclosed construct,
+    is positioned at the opening delimiter of that construct (`e.val` = the class of the
+    message, Model/Lexer.lean `clsTag` …):
+    * "unclosed tag" / "unclosed literal": at the `{` that opened the tag, or at 0 (only for
+      an expression lexed by `lexExpr`, which is not inside a tag);
+    * "unexpected eof while scanning string": at the opening `"` or `'`;
+    * "unclosed block comment": at `/*`;
+    * "unexpected eof when scanning soydoc": at `/**`. -/
+theorem lex_error_at_construct_start (input : Bytes) (exprMode : Bool) (is : List Item) (e : Item)
+    (h : Lex.lexAll input exprMode = .items is) (hl : is.getLast? = some e) (ht : e.typ = .tError) :
+    (e.val = [Lex.clsTag] ∨ e.val = [Lex.clsLiteral] → e.pos = 0 ∨ input[e.pos]? = some 123) ∧
+    (e.val = [Lex.clsString] → input[e.pos]? = some 34 ∨ input[e.pos]? = some 39) ∧
+    (e.val = [Lex.clsComment] → input[e.pos]? = some 47 ∧ input[e.pos + 1]? = some 42) ∧
+    (e.val = [Lex.clsSoyDoc] → input[e.pos]? = some 47 ∧ input[e.pos + 1]? = some 42 ∧ input[e.pos + 2]? = some 42) := by
+  obtain ⟨is', hl', _, _, _, herr⟩ := lex_items input exprMode
+  rw [h] at hl'
+  simp only [Lex.LexResult.items.injEq] at hl'
+  subst hl'
+  obtain ⟨h1, h2, h3, h4⟩ := herr e hl ht
+  refine ⟨fun hc => ?_, fun hc => ?_, fun hc => ?_, fun hc => ?_⟩
+  · rcases h1 hc with h | h
+    · exact Or.inl h
+    · exact Or.inr (byteAt_some (v := 123) (by decide) h)
+  · rcases h2 hc with h | h
+    · exact Or.inl (byteAt_some (v := 34) (by decide) h)
+    · exact Or.inr (byteAt_some (v := 39) (by decide) h)
+  · exact ⟨byteAt_some (v := 47) (by decide) (h3 hc).1, byteAt_some (v := 42) (by decide) (h3 hc).2⟩
+  · exact ⟨byteAt_some (v := 47) (by decide) (h4 hc).1, byteAt_some (v := 42) (by decide) (h4 hc).2.1,
+      byteAt_some (v := 42) (by decide) (h4 hc).2.2⟩
+
+/-- in file mode an unclosed tag is never reported at 0 unless a `{` stands there -/
+theorem lex_unclosed_tag_at_brace (input : Bytes) (is : List Item) (e : Item)
+    (h : Lex.lexAll input false = .items is) (hl : is.getLast? = some e) (ht : e.typ = .tError)
+    (hc : e.val = [Lex.clsTag] ∨ e.val = [Lex.clsLiteral]) (hp : e.pos ≠ 0) : input[e.pos]? = some 123 := by
+  rcases (lex_error_at_construct_start input false is e h hl ht).1 hc with h0 | h0
+  · exact absurd h0 hp
+  · exact h0
+
 /-! ### Non-vacuity -/
+
+section
+open Lex
+set_option maxRecDepth 8000
+
+/-- `/*`: the comment is never closed; the error stands at 0, where `/*` is — not at 2 -/
+theorem lex_open_comment : lexAll [47, 42] false = .items [⟨.tError, 0, [3]⟩] := by
+  simp [lexAll, Lex.fuelFor, run, step, lexText, lexTextLoop, lexBlockComment, Lexer.next, initLexer, Lexer.len,
+    decodeRune, byteAt, maybeEmitText, Lexer.backup, errorfAt, eof, clsComment]
+
+example : ([47, 42] : Bytes)[0]? = some 47 ∧ ([47, 42] : Bytes)[0 + 1]? = some 42 :=
+  (lex_error_at_construct_start [47, 42] false _ ⟨.tError, 0, [3]⟩ lex_open_comment rfl rfl).2.2.1 rfl
+
+/-- `/**`: an unclosed soydoc comment, reported at 0 -/
+theorem lex_open_soydoc :
+    lexAll [47, 42, 42] false = .items [⟨.tSoyDocStart, 3, [47, 42, 42]⟩, ⟨.tError, 0, [4]⟩] := by
+  simp [lexAll, Lex.fuelFor, run, step, lexText, lexTextLoop, lexSoyDoc, lexSoyDocLoop, Lexer.next, initLexer, Lexer.len,
+    decodeRune, byteAt, maybeEmitText, errorfAt, eof, clsSoyDoc, Lexer.emit, sliceOf]
+
+example := (lex_error_at_construct_start [47, 42, 42] false _ ⟨.tError, 0, [4]⟩ lex_open_soydoc rfl rfl).2.2.2 rfl
+-- (the classes "unclosed tag", "unclosed literal" and "…scanning string" are exercised by the
+--  C05lex correspondence: op `lex` prints the class of every Error item on both sides)
+end
+
 
 /-- the tokens of `{log}` followed by the end of the input: the {log} block is never closed -/
 def openLog : List Item :=
